@@ -55,6 +55,7 @@ POOL_JSON = (
     # a long tail of plain ints, used only by "big" runs: sets larger than any small-size fast path
     + [{"t": "int", "v": i} for i in range(6, 150)]
 )
+HUGE_INTS = [{"t": "int", "v": i} for i in range(150, 1500)]  # only "huge" runs draw from these
 NAN2 = float("nan")  # a second, distinct NaN object: a plain set keeps both
 NAN = float("nan")  # plain sets treat the *same* NaN object as one element (identity is tried before ==)
 N_SMALL_POOL = 17 + 16
@@ -177,7 +178,35 @@ def _eq(x, y) -> bool:
     return x is y or x == y
 
 
+_PLAIN = (int, float, str, bool, bytes, type(None))
+_index_cache: Dict[int, Any] = {}
+
+
+def _index(lst):
+    """for long lists: a hash index over the plain (hash-safe) elements + the rest as a list; set membership uses the same
+    identity-or-== rule as _eq, so the answers are those of the linear scan"""
+    key = id(lst)
+    hit = _index_cache.get(key)
+    if hit is not None and hit[0] is lst and hit[3] == len(lst):
+        return hit[1], hit[2]
+    plain, rest = set(), []
+    for x in lst:
+        if type(x) in _PLAIN:
+            plain.add(x)
+        else:
+            rest.append(x)
+    if len(_index_cache) > 64:
+        _index_cache.clear()
+    _index_cache[key] = (lst, plain, rest, len(lst))
+    return plain, rest
+
+
 def _in(e, lst) -> bool:
+    if len(lst) > 48 and type(e) in _PLAIN:
+        plain, rest = _index(lst)
+        if e in plain:
+            return True
+        lst = rest
     for x in lst:
         if _eq(x, e):
             return True
@@ -186,8 +215,16 @@ def _in(e, lst) -> bool:
 
 def _dedupe(items) -> List[Any]:
     out: List[Any] = []
+    seen_plain = set()
     for x in items:
-        if not _in(x, out):
+        if type(x) in _PLAIN:
+            if x in seen_plain:
+                continue
+            if any(_eq(x, y) for y in out if type(y) not in _PLAIN):
+                continue
+            seen_plain.add(x)
+            out.append(x)
+        elif not any(_eq(x, y) for y in out):
             out.append(x)
     return out
 
@@ -283,11 +320,26 @@ def generate(run_seed: int, cfg: Dict[str, Any]) -> Dict[str, Any]:
     big = rk.random() < 0.08
     if big:
         pool_idx = pool_idx + list(range(N_SMALL_POOL, len(POOL_JSON)))
+    huge = rk.random() < float(cfg.get("huge_rate", 0.002))
+    if huge:
+        n_ops = min(n_ops, 14)
     w_mut, w_make, w_obs = rk.choice([(6, 3, 1), (3, 6, 1), (4, 4, 2), (8, 1, 1)])
     fault_rate = rk.choice([0.05, 0.1, 0.2]) if faulty else 0.0
     rs = stream(run_seed, "schedule")
     check_rate = rk.choice([1.0, 0.5, 0.2])
     ops: List[Dict[str, Any]] = []
+    if huge:
+        # a set of well over a thousand elements (beyond any size-triggered representation), some early ones removed
+        # and a new one added, then the usual random operations and the helpers against small arguments
+        items = POOL_JSON[N_SMALL_POOL:] + HUGE_INTS[: rk.choice([900, 1200])]
+        ops.append({"op": "new", "s": 0, "dst": 0, "it": {"kind": "list", "items": items}, "check": False})
+        for e_ in rk.sample(items[:50], 3):
+            ops.append({"op": "discard", "s": 0, "e": e_, "check": False})
+        ops.append({"op": "add", "s": 0, "e": {"t": "int", "v": 5000}, "check": True})
+        for hname in ("ordered_intersect", "ordered_diff", "ordered_union"):
+            small = [{"t": "int", "v": 5000}, items[-1], items[60], {"t": "int", "v": 9999}]
+            ops.append({"op": hname, "s": 0, "a": {"kind": "slot", "slot": 0}, "b": {"kind": "list", "items": small},
+                        "dst": 1, "check": True})
     for _ in range(n_ops):
         cls = r.choices(["mut", "make", "obs"], weights=[w_mut, w_make, w_obs])[0]
         name = r.choice({"mut": MUTATORS, "make": MAKERS, "obs": OBSERVERS}[cls])
